@@ -53,6 +53,9 @@ type pureCase struct {
 	specErr string // non-empty: the implementation's output violates the property's spec
 	class   string // coarse class for the distribution table
 	trivial bool
+	jsonOut bool   // the model's output is JSON text: compare as canonical JSON trees
+	key     string // key of the spec violation (for known findings)
+	noModel bool   // only the spec monitor applies to this case
 }
 
 type mismatch struct {
@@ -121,16 +124,20 @@ func runAgainstDriver(driver string, suite string, rule string, exhaustive bool,
 			if len(res.Samples) < 6 && !c.trivial && res.Evaluations%97 == 1 {
 				res.Samples = append(res.Samples, c.line+" => "+c.impl)
 			}
-			if lines[i] != c.impl {
+			got := lines[i]
+			if c.jsonOut {
+				got = canonJSONText(got)
+			}
+			if got != c.impl && !c.noModel {
 				res.MismatchCount++
 				if len(res.Mismatches) < 20 {
-					res.Mismatches = append(res.Mismatches, mismatch{Line: c.line, Impl: c.impl, Model: lines[i]})
+					res.Mismatches = append(res.Mismatches, mismatch{Line: c.line, Impl: c.impl, Model: got})
 				}
 			}
 			if c.specErr != "" {
 				res.SpecViolationCount++
 				if len(res.SpecViolations) < 20 {
-					res.SpecViolations = append(res.SpecViolations, mismatch{Line: c.line, Impl: c.impl, Model: c.specErr})
+					res.SpecViolations = append(res.SpecViolations, mismatch{Line: c.line, Impl: c.impl, Model: c.specErr, Key: c.key})
 				}
 			}
 		}
@@ -187,4 +194,19 @@ func randString(r *rng, alphabet []string, maxLen int) string {
 		sb.WriteString(alphabet[r.intn(len(alphabet))])
 	}
 	return sb.String()
+}
+
+// canonJSONText parses JSON text and re-serialises it with sorted keys (or returns it unchanged).
+func canonJSONText(s string) string {
+	var v interface{}
+	d := json.NewDecoder(strings.NewReader(s))
+	d.UseNumber()
+	if d.Decode(&v) != nil {
+		return "unparsable:" + s
+	}
+	if d.More() {
+		return "trailing-garbage:" + s
+	}
+	b, _ := json.Marshal(v)
+	return string(b)
 }
